@@ -283,11 +283,15 @@ class GeoIndex:
             for build_point in build_points
         ]).T
 
-        if not return_distance:
-            return pairs
-
         if not pairs.size:
-            return pairs, pairs
+            return (pairs, pairs) if return_distance else pairs
+
+        if not return_distance:
+            # The build points have been shuffled in the beginning, translate
+            # their indices back (as it is done below for the other case)
+            if self.shuffler is not None:
+                pairs[0, :] = self.shuffler[pairs[0, :]]
+            return pairs
 
         distances = np.hstack([
             distances_to_query
